@@ -806,11 +806,22 @@ impl TextOwn {
     pub fn lower(self) -> (ret: Self)
     {
         let mut __self = self;
-        if __self.chars.iter().any(|ch| ch.is_uppercase()) {
-            let __end0 = __self.chars.len();
-            for __i0 in 0..__end0
+        let mut __acc0: bool = false;
+        let mut __i0 = 0;
+        while __i0 < __self.chars.len()
+        {
+            let ch = &__self.chars[__i0];
+            if ch.is_uppercase() {
+                __acc0 = true;
+                break;
+            }
+            __i0 += 1;
+        }
+        if __acc0 {
+            let __end1 = __self.chars.len();
+            for __i1 in 0..__end1
             {
-                let ch = &mut __self.chars[__i0];
+                let ch = &mut __self.chars[__i1];
                 *ch = char_to_lower(*ch, *ch);
             }
         }
